@@ -285,9 +285,10 @@ static int decoder_new(struct vf_rng *r, int late_handlers)
 
 static void decoder_end(void)
 {
+	int h;
 	census();
 	drop_exports();
-	memset(held_ok, 0, sizeof held_ok);
+	for (h = 0; h < 3; h++) release_held(h);
 	vf_phase("vbi_decoder_delete");
 	vbi_decoder_delete(g_vbi);
 	g_vbi = NULL;
